@@ -377,6 +377,8 @@ package builder
 // C08: a member maps by enum:map, else by the transformers, else to the member of the same name
 //@   at@C08 call caseAction#1 assert arg5 == ite(has(ctx.Conf.EnumMapping.Map, sourceName), ctx.Conf.EnumMapping.Map[sourceName],
 //@           ite(has(transformerMapping, sourceName), transformerMapping[sourceName], sourceName))
+// C08/C01: members are recognised as duplicates by the PRINTED value (constants of big or float types are pointers)
+//@   at@C08,C01 call jen.Case#1 assert sourceKey == fmt.Sprint(sourceValue)
 // C08: every source member counts as existing for the "configured key does not exist" check, whether or not it gets
 // its own case (members with equal values share one)
 //@   loop@C08 2 invariant idx > 0 ==> reached("delete#1")
@@ -436,6 +438,8 @@ package builder
 //@   at@C07 call gen.Assign#* assert same(arg5, errPath)
 //@   at@C11 call BuildByAssign#* assert !(ctx.UseConstructor && ctx.Conf.DefaultUpdate)
 //@   at@C11 call buildTargetVar#* assert ctx.UseConstructor && ctx.Conf.DefaultUpdate
+// C01/C11: the constructor is offered the method's source as it is (expression and type belong together)
+//@   at@C01,C11 call buildTargetVar#1 assert arg2 == sourceID && arg3 == source && arg4 == target
 // the source is applied ON TOP of the constructor's result: the assignment is an update of that value
 //@   at@C11 call gen.Assign#1 assert arg1 != nil && arg1.Update
 //@   requires@C13 self != nil
@@ -564,8 +568,8 @@ package builder
 //@   at@C01 call gen.Assign#1 assert xtype.Accessible(targetField, ctx.OutputPackagePath)
 //@   at@C01 call gen.CallMethod#1 assert xtype.Accessible(targetField, ctx.OutputPackagePath)
 // C05: ignored fields and (with ignoreUnexported) unexported fields produce no statement
-//@   at@C05 call gen.Assign#1 assert !fieldMapping.Ignore && (targetField.Exported() || !ctx.Conf.IgnoreUnexported)
-//@   at@C05 call gen.CallMethod#1 assert !fieldMapping.Ignore && (targetField.Exported() || !ctx.Conf.IgnoreUnexported) && arg1 == fieldMapping.Function
+//@   at@C05,C03,C10 call gen.Assign#1 assert !fieldMapping.Ignore && (targetField.Exported() || !ctx.Conf.IgnoreUnexported)
+//@   at@C05,C03,C10 call gen.CallMethod#1 assert !fieldMapping.Ignore && (targetField.Exported() || !ctx.Conf.IgnoreUnexported) && arg1 == fieldMapping.Function
 //@   at@C05 call mapField#* assert !fieldMapping.Ignore && arg2 == targetField
 // C07: every nested conversion of a field gets the path extended by exactly that TARGET field name
 //@   at@C07 call gen.Assign#1 assert len(arg5) == len(errPath) + 1 && (forall j int :: 0 <= j && j < len(errPath) ==> arg5[j] == errPath[j])
@@ -580,6 +584,9 @@ package builder
 // error check that may return, and the assignment -- is inside the guard (a zero source value neither writes the
 // field nor runs a conversion that can fail)
 //@   at@C10 call Block#2 assert seqEq(arg0, callStmt) && len(callStmt) > 0
+// C06/C05: the custom function gets the configured source field; the enclosing source pointer only for `map . T | FUNC`
+// (the enclosing pointer is only considered -- the assignability question is only asked -- for the source ".")
+//@   at@C06,C05 call def.Source.AssignableTo#1 assert fieldMapping.Source == "." && sourceID.ParentPointer != nil
 // the guard is only asked about a source that exists (map|FUNC with a FUNC that takes no source has none): F12
 //@   at@C10,C13 call shouldCheckAgainstZero#* assert arg1 != nil
 //@   requires@C13 self != nil
